@@ -273,6 +273,36 @@ func genC07(g *Rng, tier string, emit func(Op)) {
 		}
 		emit(col.op("script-" + script))
 	}
+	// one issuance builder asked twice for its commitment proof (a retry with a fresh issuer nonce).
+	// A CredentialBuilder commits to v' and to its blind shares once, at construction, so those
+	// randomisers are per builder by design and are not recorded here; the secret key is what must
+	// not become extractable from the two proofs.
+	for k := 0; k < 3; k++ {
+		col := &collector{}
+		ctx := g.bits(256)
+		secret := randSecret(g)
+		var blind []int
+		if k > 0 {
+			blind = []int{k}
+		}
+		b, err := gabi.NewCredentialBuilder(kp.pk, ctx, secret, g.bits(80), nil, blind)
+		if err != nil {
+			panic(err)
+		}
+		for r := 0; r < 2+k; r++ {
+			m, err := b.CommitToSecretAndProve(g.bits(80))
+			if err != nil {
+				panic(err)
+			}
+			pu := m.Proofs[0].(*gabi.ProofU)
+			col.mu.Lock()
+			col.nproof++
+			col.vals = append(col.vals, tval{col.session + 1, col.nproof, pu.C, "secretkey", pu.SResponse, secret})
+			col.session++
+			col.mu.Unlock()
+		}
+		emit(col.op("issuance-retry"))
+	}
 	// the process-wide fast generator under contention: randomisers drawn concurrently are distinct
 	for _, ng := range []int{4, 32} {
 		per := 3000
